@@ -1489,8 +1489,21 @@ def enumerate_faults(prog):
         env = task_vars(t)
         tref = ["tasks", ti]
         spaths = simple_paths(env, S, 3)
+        # counting variables of any loop of this Task: they are no Task variables, inside the loop or behind it
+        ctr_names = sorted({n["var"] for n, _r, _ro, _lv in iter_nodes(t["body"], tref + ["body"])
+                            if n.get("k") in ("cloop", "ploop") and n.get("var") not in env})
         for node, ref, role, lv in iter_nodes(t["body"], tref + ["body"]):
             k = node["k"]
+            if is_call_like(node):
+                for cn in ctr_names:
+                    where = "inside its loop" if cn in lv else "outside its loop"
+                    if node.get("ins"):
+                        add("unknown_variable_as_input", ref + ["ins", 0], edit("set", ref, ref=ref + ["ins", 0], value=cn),
+                            "counting variable %s %s" % (cn, where))
+                    if k == "svc":
+                        add("unknown_variable_as_input", ref, edit("insert", ref, ref=ref + ["ins"],
+                                                                   index=len(node.get("ins", [])), value=cn),
+                            "new input: counting variable %s %s" % (cn, where))
             if k == "call":
                 cls = {"stmt": "unknown_task_in_call", "parcall": "unknown_task_in_parallel",
                        "ploopcall": "unknown_task_in_parallel_loop"}[role]
@@ -1616,6 +1629,11 @@ def enumerate_faults(prog):
                     if ety == "number":
                         bads = [True, '"abc"'] + [p for p, ty in spaths if ty == "boolean" and "[0]" not in p][:1] + \
                                [p for p, ty in spaths if ty == "string" and "[0]" not in p][:1]
+                        # And / Or of two numbers in parentheses where a number stands: ill-typed on its own, wherever it is
+                        nums = [p for p, ty in spaths if ty == "number" and "[0]" not in p][:2]
+                        n1, n2 = (nums + [1.5, 2.5])[:2]
+                        bads += [{"left": "(", "binOp": {"left": n1, "binOp": bop, "right": n2}, "right": ")"}
+                                 for bop in ("And", "Or")]
                     elif ety == "boolean":
                         bads = ['"abc"'] + [p for p, ty in spaths if ty == "string" and "[0]" not in p][:1]
                         if not top:
